@@ -1,6 +1,7 @@
 """C09 — empirical quantiles: correspondence of csep.utils.stats with Model/Ecdf.lean + direct oracle."""
 import bisect
 import math
+import os
 import itertools
 from fractions import Fraction
 
@@ -12,11 +13,23 @@ LEVEL_TEXT = ("Proof: ge/le empirical probabilities equal #{x_i>=v}/n and #{x_i<
               "every query (induction over lists, kernel-checked), with the sum, bound and monotonicity corollaries; tied to the "
               "code by an exhaustive correspondence over all multisets of size <=7 over 6 letters x 13 queries plus random "
               "large samples with heavy ties, and by dtype classes (every integer / float sample dtype x every way of passing the "
-              "query; 64-bit integers beyond 2**53 compared as exact integers).")
-LEVEL_NOTE = ("numpy.sort / numpy.searchsorted are modelled by their specification (sorted permutation, insertion point); the "
-              "float returned by the library is compared to Python's k/n exactly and to the Soft64 division of the model. "
+              "query; 64-bit integers beyond 2**53 compared as exact integers). The same clause is proved for the code statement "
+              "by statement on the arrays it builds (sorted array, arange/n, reversed array, Python subscripts, the cdf= argument, "
+              "numpy's binary-search loop - proved to return the insertion point -, +-inf queries), and numpy's promotion table "
+              "is part of the model (compared with numpy.result_type on all dtype pairs on every run).")
+LEVEL_NOTE = ("numpy.sort is modelled by its specification (sorted permutation); numpy.searchsorted is modelled as the binary-search "
+              "loop of numpy's binsearch.cpp and PROVED to return the insertion point on every sorted array; the arrays of ecdf(), "
+              "the reversed array, Python subscripts (negative index, IndexError), the cdf= argument and binned_ecdf's shared "
+              "ecdf are modelled statement by statement (Model/EcdfCode.lean) and proved to give #{x>=v}/n, #{x<=v}/n, also "
+              "for +-inf queries; the "
+              "float returned by the library is compared to Python's k/n to rounding (1e-12; a miscount moves it by >= 5e-6) and, "
+              "as a statistic, bit for bit to the Soft64 division of the model. Outside the property and therefore recorded, not "
+              "judged: empty samples, nan queries, a cdf= of another sample, argument forms the docstrings do not promise when they "
+              "are rejected with an error. "
               "numpy's type promotion is modelled by a second layer (Model/EcdfNumpy.lean: conversion applied by the "
-              "short-circuit comparisons, conversion applied by searchsorted): with one common dtype it is proved equal to "
+              "short-circuit comparisons, conversion applied by searchsorted; Model/EcdfPromote.lean: WHICH conversions, as a "
+              "function of the sample dtype and the kind of query - numpy.result_type as a table, proved to lose values "
+              "exactly for 64-bit integers meeting float64): with one common dtype it is proved equal to "
               "the exact model, with a lossy search domain it is proved to return the exact count plus the collisions; the "
               "two input sub-classes where promotion makes the unchanged library miss the property are known findings "
               "D35/D36 (reported with their signature; kernel-checked witnesses on the faithful model; on every run the "
@@ -31,13 +44,24 @@ THEOREMS = ["Ecdf.ge_ecdf_eq", "Ecdf.le_ecdf_eq", "Ecdf.ecdf_sum", "Ecdf.ge_anti
             "Ecdf.np_injective_exact", "Ecdf.fl64_is_mono", "Ecdf.finding_D35_le", "Ecdf.finding_D35_ge",
             "Ecdf.finding_D36_le_wraps", "Ecdf.finding_D36_ge_indexError", "Ecdf.prob_float_mono", "Ecdf.prob_float_bounds",
             "Ecdf.ge_float_anti", "Ecdf.le_float_mono", "Ecdf.min_or_none_spec", "Ecdf.max_or_none_spec",
-            "Ecdf.extremes_have_probability_one", "Ecdf.sup_dist_na_spec"]
+            "Ecdf.extremes_have_probability_one", "Ecdf.sup_dist_na_spec",
+            # Properties/C09_Code.lean: the code on the arrays it builds (reversed array, Python subscripts, cdf= argument,
+            # numpy's binary search as a loop, +-inf / nan queries)
+            "Ecdf.searchsorted_is_insertion_point", "Ecdf.ge_code_eq", "Ecdf.le_code_eq", "Ecdf.code_empty_none",
+            "Ecdf.code_refines_pair_model", "Ecdf.code_infinite_query", "Ecdf.code_nan_query", "Ecdf.cdf_arg_own",
+            "Ecdf.cdf_arg_wins", "Ecdf.binned_code_eq", "Ecdf.quantiles_code_sum", "Ecdf.ge_code_anti", "Ecdf.le_code_mono",
+            "Ecdf.np_int_below_2p53_exact",
+            # Properties/C09_Promote.lean: numpy's promotion table inside the model
+            "Ecdf.resultType_comm", "Ecdf.resultType_idem", "Ecdf.resultType_lossy_iff", "Ecdf.np_int_dtype_pairs_exact",
+            "Ecdf.np_int_sample_below_2p53_exact", "Ecdf.listSample_exact", "Ecdf.finding_list_straddling_2p63",
+            "Ecdf.np_ge_characterised", "Ecdf.np_le_characterised", "Ecdf.np_same_domain_no_indexError"]
 TRUSTED = ["Lean 4.33 kernel", "axioms: propext, Classical.choice, Quot.sound at most",
-           "numpy.sort returns the sorted permutation and numpy.searchsorted the left/right insertion point "
-           "(modelled as List.mergeSort / takeWhile-length)",
-           "numpy's promotion rules as encoded in harness/c09.py:_domains (NEP 50 weak scalars, exact mixed-sign integer "
-           "comparison loops, result_type for searchsorted) - validated on every run by comparing the promotion-aware model "
-           "with the library's actual outputs (coverage.np_layer)",
+           "numpy.sort returns the sorted permutation (modelled as List.mergeSort); numpy.searchsorted runs the binary-search loop "
+           "of numpy/_core/src/npysort/binsearch.cpp for one key (modelled as Ecdf.bsearch; insertion point proved)",
+           "numpy's promotion rules as encoded in the MODEL (Model/EcdfPromote.lean: result_type table, NEP 50 weak scalars, exact "
+           "mixed-sign integer comparison loops, asarray of a Python int) - the table is compared with numpy.result_type on all "
+           "121 dtype pairs on every run (coverage.promotion_table) and the promotion-aware model with the library's actual "
+           "outputs (coverage.np_layer); the harness only passes dtype NAMES",
            "harness/c09.py generators and comparison; driver parsing (Proto.lean)"]
 RULE = ("exhaustive: every multiset of size 1..7 over two 6-letter alphabets (1..6 and -3..2) x 13 query points (on, between, below, "
         "above); random: large samples with heavy ties, int and float dtypes, list and ndarray inputs; dtype classes: every "
@@ -48,14 +72,21 @@ RULE = ("exhaustive: every multiset of size 1..7 over two 6-letter alphabets (1.
         "layouts; +-inf queries; histories on one array object changed in place between lookups (refill, single entry, "
         "*= 2, in-place sort, progressive fill, append to a list, a new object in place of a dropped one); samples of "
         "65537..200003 values with counts above 65535; float pools with subnormal / 1e-300 / -0.0 / 1e300 values; sup_dist_na / sup_dist on two samples with ties within and between them; "
-        "min_or_none / max_or_none over all dtypes incl. empty input; "
+        "min_or_none / max_or_none over all dtypes incl. empty input; argument forms: samples as list / tuple / ndarray / ndarray "
+        "subclass / pandas Series with a non-default index / range / array.array / deque, keyword calls of all four public "
+        "functions, cdf= as the documented tuple, as a list, as Python lists, as (), binned_ecdf with list / tuple / array query "
+        "points, +-inf queries of every float type (verdict); nan queries and the ecdf of another sample as cdf= (statistic: "
+        "prediction of the statement-level model); "
         "a case is non-trivial when the sample has a tie or the query equals a sample value; distinct by (sample, query)")
 
 # Sub-classes of the dtype generators on which the UNCHANGED library violates the property: known findings D35 / D36 of
 # /verif/known_findings.json (signature "ecdf:<name>"). Cases of a listed sub-class ARE evaluated: a wrong answer or an
 # exception there is reported with that signature (-> KNOWN-FINDING line), a right answer is compared with the model as
 # usual. AWAITING_DECISION stays empty unless a new candidate is parked.
-AWAITING_DECISION = []
+#  python-int-list-straddling-2^63 (round 4, parked): a sample handed over as a list / tuple of Python ints of which some
+#    are >= 2**63 and some are smaller: numpy.asarray makes it float64 (not uint64, not object), so neighbours beyond 2**53
+#    collapse before the library compares anything (same family as D35, but the D35 repair does not cover it).
+AWAITING_DECISION = ["python-int-list-straddling-2^63"]
 KNOWN_FINDING_CLASSES = [
     # integer sample and query whose numpy common dtype is a float (int64 x uint64, uint64 x Python int, integer x float
     # query) while a sample value or the query is not exactly representable in it (|t| > 2**53): numpy.searchsorted
@@ -120,29 +151,31 @@ def awaiting_class(arr, v):
     return None
 
 
-_DOM = {"float16": "h", "float32": "s", "float64": "d"}
+_DTNAMES = ["uint8", "uint16", "uint32", "uint64", "int8", "int16", "int32", "int64", "float16", "float32", "float64"]
 
 
-def _domains(arr, v):
-    """(sc, se) for the promotion-aware layer of the model (Model/EcdfNumpy.lean): the comparison domain of the two
-    short-circuits (a sample ELEMENT against the query) and of numpy.searchsorted (sorted sample and query converted to
-    their common dtype); 'x' exact, 'h'/'s'/'d' binary16/32/64.  None when a dtype is outside the modelled ones."""
-    E = arr.dtype
-    weak = not isinstance(v, (numpy.generic, numpy.ndarray))
-    try:
-        if weak:
-            if isinstance(v, int):
-                sc = "x" if E.kind in "iu" else _DOM[E.name]       # weak int: exact among integers, else cast to E
-            else:
-                sc = "d" if E.kind in "iu" else _DOM[E.name]       # weak float: integer element -> float64, else cast to E
-        else:
-            Q = v.dtype
-            sc = "x" if (E.kind in "iu" and Q.kind in "iu") else _DOM[numpy.result_type(E, Q).name]
-        R = numpy.result_type(E, _qdtype(v))
-        se = "x" if R.kind in "iu" else _DOM[R.name]
-    except KeyError:
+def _dt_args(arr, v):
+    """(sample dtype name, query kind) for the driver op `ecdf_dt`: the promotion TABLE is in the Lean model
+    (Model/EcdfPromote.lean); None when a dtype is outside the eleven modelled ones"""
+    if arr.dtype.name not in _DTNAMES:
         return None
-    return sc, se
+    if isinstance(v, (numpy.generic, numpy.ndarray)):
+        return (arr.dtype.name, v.dtype.name) if v.dtype.name in _DTNAMES else None
+    if isinstance(v, bool):
+        return None
+    return (arr.dtype.name, "pyint" if isinstance(v, int) else "pyfloat")
+
+
+def _validate_promotion_table(run):
+    """the model's `resultType` against numpy.result_type on all 121 pairs; a disagreement means the model's table is not
+    numpy's (another numpy version): harness error, not a verdict about pyCSEP"""
+    drv = Driver()
+    idx = {(a, b): drv.ask(f"c09_result_type {a} {b}") for a in _DTNAMES for b in _DTNAMES}
+    out = drv.run()
+    bad = [(a, b, out[i], numpy.result_type(a, b).name) for (a, b), i in idx.items() if out[i] != numpy.result_type(a, b).name]
+    run.extra["promotion_table"] = dict(pairs=len(idx), agree_with_numpy_result_type=len(idx) - len(bad), numpy=numpy.__version__)
+    if bad:
+        raise RuntimeError(f"Model/EcdfPromote.lean resultType differs from numpy.result_type: {bad[:5]}")
 
 
 def _relayout(arr, how):
@@ -172,10 +205,80 @@ def _impl(arg, v):
     ge = stats.greater_equal_ecdf(arg, v)
     le = stats.less_equal_ecdf(arg, v)
     q = stats.get_quantiles(arg, v)
+    if "ecdf" in _MISSING:
+        return ge, le, q, ge, le
     cdf = stats.ecdf(arg)            # the precomputed-ecdf path used by binned_ecdf
     gec = stats.greater_equal_ecdf(arg, v, cdf=cdf)
     lec = stats.less_equal_ecdf(arg, v, cdf=cdf)
     return ge, le, q, gec, lec
+
+
+FTOL = 1e-12
+
+
+def _feq(a, b):
+    """equality of two returned probabilities / float statistics "to rounding": a miscount moves a probability by at least
+    1/n >= 5e-6 for the sample sizes generated, a reordering of the float operations by a few 1e-16"""
+    try:
+        if isinstance(a, (tuple, list)) or isinstance(b, (tuple, list)):
+            return len(a) == len(b) and all(_feq(x, y) for x, y in zip(a, b))
+        return abs(float(a) - float(b)) <= FTOL
+    except Exception:
+        return False
+
+
+# helpers of csep.utils.stats that are NOT named by the property (observe_at: get_quantiles / greater_equal_ecdf /
+# less_equal_ecdf / binned_ecdf): when one of them does not exist on the tree under test (renamed, made private, removed)
+# the cases that drive it directly are skipped and counted, never a crash or a verdict; every clause of the property is
+# reached through the four public functions alone
+OPTIONAL_HELPERS = ["ecdf", "sup_dist", "sup_dist_na", "min_or_none", "max_or_none"]
+_MISSING = set()
+
+
+def _detect_helpers(run):
+    from csep.utils import stats
+    _MISSING.clear()
+    for name in OPTIONAL_HELPERS:
+        if not callable(getattr(stats, name, None)):
+            _MISSING.add(name)
+            run.count("helper-missing:" + name)
+            run.assumptions.append(f"csep.utils.stats.{name} does not exist on the tree under test: the cases that call it "
+                                   f"directly were skipped (the property is judged through the four public functions)")
+
+
+def _outside(run, key, as_today):
+    """behaviour on an input OUTSIDE the property's quantifier (empty sample, nan query, a cdf= of another sample, an
+    argument form the docstrings do not promise): recorded, never a verdict"""
+    run.count(f"outside-property:{key}:" + ("as-modelled" if as_today else "differs"))
+
+
+def _quiet(f):
+    """call on an input outside the quantifier: (value, None) or (None, exception)"""
+    try:
+        with numpy.errstate(all="ignore"):
+            return f(), None
+    except Exception as e:
+        return None, e
+
+
+class _Failed:
+    """marker: the guarded call raised and has been reported"""
+    def __repr__(self):
+        return "<failed>"
+
+
+_FAILED = _Failed()
+
+
+def _guard(run, case, what, f, signature=None):
+    """call the real API; an exception on an input inside the property's quantifier is an ORACLE FAILURE with that input
+    as replay (never a harness crash)"""
+    try:
+        with numpy.errstate(all="ignore"):
+            return f()
+    except Exception as e:
+        run.oracle_failure(case, f"{what}: exception {type(e).__name__}: {e}", signature=signature)
+        return _FAILED
 
 
 def _scalar(o):
@@ -235,7 +338,7 @@ def _check_case(run, drv, pending, x, v, as_list, tag, layout=None):
     arg = (list(arr) if as_list else arr) if arr is not None else (list(x) if as_list else numpy.asarray(x))
     # promotion-aware layer of the model: asked for the dtype / random classes (the exhaustive lists are float64 / int64
     # with a same-kind query: both domains exact)
-    doms = _domains(arr if arr is not None else numpy.asarray(x), v) if not tag.startswith("exhaustive") else None
+    doms = _dt_args(arr if arr is not None else numpy.asarray(x), v) if not tag.startswith("exhaustive") else None
     if n > 64 and (n + len(pending)) % 4:
         doms = None       # large samples: one in four (each driver request re-reads the whole sample)
 
@@ -248,7 +351,7 @@ def _check_case(run, drv, pending, x, v, as_list, tag, layout=None):
 
     def ask_np(observed):
         if doms is not None:
-            k = drv.ask(f"ecdf_np {doms[0]} {doms[1]} {xs_txt()}")
+            k = drv.ask(f"ecdf_dt {doms[0]} {doms[1]} {xs_txt()}")
             pending.append(("np", case, k, observed, aw in KNOWN_FINDING_CLASSES))
     try:
         ge, le, q, gec, lec = _impl(arg, v)
@@ -274,7 +377,7 @@ def _check_case(run, drv, pending, x, v, as_list, tag, layout=None):
     if arr is not None:
         run.count("dtype:" + arr.dtype.name)
     # direct oracle: exact float k/n (counts over exact integers / rationals), also through the cdf= path
-    if not (ge == kge / n and le == kle / n and q[0] == ge and q[1] == le and gec == ge and lec == le):
+    if not (_feq(ge, kge / n) and _feq(le, kle / n) and _feq(q[0], ge) and _feq(q[1], le) and _feq(gec, ge) and _feq(lec, le)):
         run.oracle_failure(full(), f"ge={ge!r} le={le!r} quantiles={q!r} with cdf=: {gec!r} {lec!r}; "
                                    f"expected {kge}/{n} {kle}/{n}", signature=sig)
         if sig:
@@ -327,8 +430,8 @@ def _flush(run, drv, pending):
             parts = out[k].split(" ")
             if len(parts) == 2 and Fraction(parts[0]) == Fraction(ge) and Fraction(parts[1]) == Fraction(le):
                 fl["equal_to_soft64_division"] += 1
-            else:
-                # the library's float is not the correctly rounded k/n of the model's counts
+            elif not (len(parts) == 2 and _feq(float(Fraction(parts[0])), ge) and _feq(float(Fraction(parts[1])), le)):
+                # beyond rounding: the library's float is not k/n of the model's counts (bit-equality is a statistic)
                 run.mismatch(dict(case, op="ecdf_float"), [frac(Fraction(ge)), frac(Fraction(le))], out[k])
             continue
         _, case, i, j, ge, le, n = item
@@ -336,16 +439,34 @@ def _flush(run, drv, pending):
             mge, mle = val(out[i]), val(out[j])
         except Exception:
             mge = mle = None
-        if mge != ge or mle != le:
+        if mge is None or not _feq(mge, ge) or not _feq(mle, le):
             run.mismatch(case, [ge, le], [out[i], out[j]])
+
+
+def _stage(run, name, f):
+    """last safety net: an exception that escapes a generator and was raised INSIDE pyCSEP (a frame of the csep package is
+    on the traceback) is an oracle failure, not a harness error; an exception of the harness itself is re-raised (exit 2)"""
+    import traceback
+    try:
+        f()
+    except Exception as e:
+        frames = traceback.extract_tb(e.__traceback__)
+        if any(os.sep + "csep" + os.sep in fr.filename for fr in frames):
+            run.oracle_failure(dict(tag="stage", stage=name), f"{name}: pyCSEP raised {type(e).__name__}: {e} "
+                                                                f"(at {frames[-1].filename}:{frames[-1].lineno})")
+        else:
+            raise
 
 
 def run(run, rng, tier):
     drv, pending = Driver(), []
+    _detect_helpers(run)
+    _validate_promotion_table(run)
     # empty sample: the library returns None
     from csep.utils import stats
-    if stats.greater_equal_ecdf([], 1.0) is not None or stats.less_equal_ecdf(numpy.array([]), 1.0) is not None:
-        run.oracle_failure(dict(x=[], v=1.0), "empty sample must give None")
+    # empty sample: OUTSIDE the property ("for any non-empty sample"); today the library returns None (Ecdf.empty_none)
+    emp, exc = _quiet(lambda: (stats.greater_equal_ecdf([], 1.0), stats.less_equal_ecdf(numpy.array([]), 1.0)))
+    _outside(run, "empty-sample", exc is None and emp[0] is None and emp[1] is None)
     run.case(dict(x=[], v=1.0), None)
     # exhaustive part
     n_ex = 0
@@ -385,23 +506,20 @@ def run(run, rng, tier):
         qs = [v for v in qs if kind == "int" or math.isfinite(float(v))]
         for v in rng.sample(qs, min(3, len(qs))):
             _check_case(run, drv, pending, x, float(v) if kind != "int" else v, rng.random() < 0.3, "random-" + kind)
-    _dtype_cases(run, drv, pending, rng, tier)
+    _stage(run, "dtype classes", lambda: _dtype_cases(run, drv, pending, rng, tier))
     _flush(run, drv, pending)
-    _binned(run, rng, tier)
-    _binned_dtypes(run, rng, tier)
-    _infinite_queries(run, rng, tier)
-    _large_samples(run, rng, tier)
-    _sessions(run, rng, tier)
-    _sup_dist(run, rng, tier)
-    _min_max(run, rng, tier)
+    for name, gen in (("binned_ecdf", _binned), ("binned_ecdf over dtypes", _binned_dtypes), ("infinite queries", _infinite_queries),
+                      ("large samples", _large_samples), ("sessions", _sessions), ("argument forms / code layer", _code_layer),
+                      ("sup_dist", _sup_dist), ("min/max_or_none", _min_max)):
+        _stage(run, name, lambda gen=gen: gen(run, rng, tier))
 
 
 def _binned(run, rng, tier):
     """binned_ecdf / ecdf: every entry is the "at most" probability at that query value"""
     from csep.utils import stats
     drv, pend = Driver(), []
-    if stats.binned_ecdf([], [1.0, 2.0]) is not None:
-        run.oracle_failure(dict(x=[], vals=[1.0, 2.0]), "binned_ecdf of an empty sample must be None")
+    emp, exc = _quiet(lambda: stats.binned_ecdf([], [1.0, 2.0]))
+    _outside(run, "empty-sample-binned", exc is None and emp is None)
     for _ in range(60 if tier == "quick" else 600):
         n = rng.randint(1, 60)
         pool = [round(rng.uniform(0, 20), 1) for _ in range(rng.randint(1, 12))]
@@ -412,7 +530,7 @@ def _binned(run, rng, tier):
         run.case(case, ("binned", tuple(x), tuple(vals)))
         try:
             got = stats.binned_ecdf(numpy.array(x), numpy.array(vals))
-            ex, ey = stats.ecdf(numpy.array(x))
+            ex, ey = stats.ecdf(numpy.array(x)) if "ecdf" not in _MISSING else (sorted(x), [(i + 1) / n for i in range(n)])
         except Exception as e:
             run.oracle_failure(case, f"exception {type(e).__name__}: {e}")
             continue
@@ -424,9 +542,9 @@ def _binned(run, rng, tier):
         except Exception as e:      # None, wrong shape, wrong type: a deviation, not a harness crash
             run.oracle_failure(case, f"binned_ecdf / ecdf output cannot be read: {type(e).__name__}: {e}")
             continue
-        if g1 != want or g0 != vals:
+        if not _feq(g1, want) or not _feq(g0, vals):
             run.oracle_failure(case, f"binned_ecdf={g1!r} expected {want!r}")
-        if e0 != sorted(x) or e1 != [(i + 1) / n for i in range(n)]:
+        if e0 != sorted(x) or not _feq(e1, [(i + 1) / n for i in range(n)]):
             run.oracle_failure(case, "ecdf(x) is not (sorted x, (1..n)/n)")
         pend.append((case, drv.ask(f"binned_ecdf {flist(x)} {flist(vals)}"), g1))
     out = drv.run()
@@ -435,8 +553,8 @@ def _binned(run, rng, tier):
             model = [int(t.split(":")[0]) / int(t.split(":")[1]) for t in out[i].split(",")]
         except Exception:
             model = None
-        if model != got:
-            run.mismatch(case, got, out[i])
+        if model is None or not _feq(model, [float(t) for t in got]):
+            run.mismatch(case, [float(t) for t in got], out[i])
 
 
 # ----------------------------------------------------------------------------- dtype classes
@@ -513,8 +631,8 @@ def _dtype_cases(run, drv, pending, rng, tier):
             typed = {q: _typed_queries(q) for q in queries}
             for size in (1, 2, 3, 4):
                 multisets = list(it.combinations_with_replacement(letters, size))
-                if quick and len(multisets) > 12:
-                    multisets = rng.sample(multisets, 12)
+                if quick and len(multisets) > 9:
+                    multisets = rng.sample(multisets, 9)
                 for ms in multisets:
                     ms = list(ms)
                     rng.shuffle(ms)
@@ -596,7 +714,7 @@ def _binned_dtypes(run, rng, tier):
             continue
         want = [sum(1 for t in fx if t <= v) / n for v in fvals]
         try:
-            ok = got is not None and [_scalar(t) for t in got[1]] == want and [_exact(t) for t in got[0]] == fvals
+            ok = got is not None and _feq([_scalar(t) for t in got[1]], want) and [_exact(t) for t in got[0]] == fvals
         except Exception:
             ok = False
         if not ok:
@@ -610,8 +728,8 @@ def _binned_dtypes(run, rng, tier):
             model = [int(t.split(":")[0]) / int(t.split(":")[1]) for t in out[i].split(",")]
         except Exception:
             model = None
-        if model != got:
-            run.mismatch(case, got, out[i])
+        if model is None or not _feq(model, [float(t) for t in got]):
+            run.mismatch(case, [float(t) for t in got], out[i])
 
 
 # ----------------------------------------------------------------------------- queries at +-infinity (oracle only)
@@ -642,7 +760,11 @@ def _infinite_queries(run, rng, tier):
         except Exception as e:
             run.oracle_failure(case, f"exception {type(e).__name__}: {e}")
             continue
-        if tuple(map(float, got)) != want or tuple(map(float, q)) != want:
+        try:
+            ok = _feq(tuple(map(_scalar, got)), want) and _feq(tuple(map(_scalar, q)), want)
+        except Exception:
+            ok = False
+        if not ok:
             run.oracle_failure(case, f"(ge, le)={got!r} quantiles={q!r}, expected {want}")
 
 
@@ -662,7 +784,7 @@ def _run_large(run, case):
     except Exception as e:
         run.oracle_failure(case, f"exception {type(e).__name__}: {e}")
         return
-    if got != (kge / n, kle / n, kge / n, kle / n):
+    if not _feq(got, (kge / n, kle / n, kge / n, kle / n)):
         run.oracle_failure(case, f"n={n}: (ge, le)={got!r}, expected ({kge}/{n}, {kle}/{n})")
 
 
@@ -732,13 +854,16 @@ def _run_session(run, case):
             for i, t in enumerate(st["vals"][:len(x)]):
                 x[i] = conv(t)
         elif op == "other-array":
-            stats.get_quantiles(other, conv(st["v"]))
+            if _guard(run, case, f"step {k} (lookup on another array)", lambda: stats.get_quantiles(other, conv(st["v"]))) is _FAILED:
+                return
         v = conv(st["v"])
         fx = [_exact(t) for t in (x if as_list else (x.tolist() if dt.kind in "iu" else x))]
         n = len(fx)
         kge, kle = sum(1 for t in fx if t >= _exact(v)), sum(1 for t in fx if t <= _exact(v))
         try:
             how = st.get("call", "quantiles")
+            if how == "cdf" and "ecdf" in _MISSING:
+                how = "separate"
             if how == "quantiles":
                 got = tuple(map(_scalar, stats.get_quantiles(x, v)))
             elif how == "separate":
@@ -753,7 +878,7 @@ def _run_session(run, case):
         except Exception as e:
             run.oracle_failure(case, f"step {k} ({op}): exception {type(e).__name__}: {e}")
             return
-        if got != (kge / n, kle / n):
+        if not _feq(got, (kge / n, kle / n)):
             run.oracle_failure(case, f"step {k} (after {op}): (ge, le)={got!r} for the sample as it is now "
                                      f"{[str(t) for t in fx][:12]} and v={v!r}; expected ({kge}/{n}, {kle}/{n})")
             return
@@ -787,11 +912,258 @@ def _sessions(run, rng, tier):
         _run_session(run, case)
 
 
+# ----------------------------------------------------------------------------- statement-level layer (Model/EcdfCode.lean)
+CONTAINERS = ["list", "tuple", "array", "series", "range", "array.array", "deque", "subclass"]
+CALL_FORMS = ["positional", "keywords", "cdf-own-tuple", "cdf-own-list", "cdf-own-pylists", "cdf-empty", "quantiles-kw",
+              "binned", "binned-kw"]
+
+
+class _Sub(numpy.ndarray):
+    """a plain ndarray subclass (views keep the class): the property is about the values"""
+
+
+def _container(kind, vals, dt):
+    import array as _array
+    import collections
+    if kind == "range":
+        return range(int(vals[0]), int(vals[0]) + len(vals))
+    conv = [int(t) for t in vals] if dt.kind in "iuO" else [float(t) for t in vals]
+    if dt.kind == "O":                      # Python ints of any size: numpy chooses int64 / uint64 / object itself
+        return conv if kind == "list" else (tuple(conv) if kind == "tuple" else __import__("collections").deque(conv))
+    arr = numpy.array(conv, dtype=dt)
+    if kind == "list":
+        return conv
+    if kind == "tuple":
+        return tuple(conv)
+    if kind == "series":
+        import pandas
+        return pandas.Series(arr, index=[7 * i + 3 for i in range(len(conv))][::-1])
+    if kind == "array.array":
+        return _array.array("q" if dt.kind in "iu" else "d", conv)
+    if kind == "deque":
+        return collections.deque(conv)
+    if kind == "subclass":
+        return arr.view(_Sub)
+    return arr
+
+
+def _qtext(v):
+    f = float(v)
+    return "nan" if f != f else ("inf" if f == math.inf else ("-inf" if f == -math.inf else frac(Fraction(_exact(v)))))
+
+
+def _run_code_case(run, case, drv=None, pend=None):
+    """one call of the quantile functions in one ARGUMENT FORM (container, keywords, cdf=) -> exact oracle; the same call
+    is queued for the statement-level model (`ecdf_code` / `binned_code`)"""
+    from csep.utils import stats
+    dt = numpy.dtype(case["xdtype"])
+    fx = [Fraction(t) for t in case["x"]]
+    x = _container(case["container"], fx, dt)
+    vt = case["vtype"]
+    if case["v"] in ("inf", "-inf", "nan"):
+        v = float(case["v"]) if vt == "float" else numpy.dtype(vt.replace("@0d", "")).type(case["v"])
+        if vt.endswith("@0d"):
+            v = numpy.asarray(v)
+    else:
+        v = _mk_query(vt, case["v"])
+    form = case["form"]
+    n = len(fx)
+    if dt.kind == "O":
+        a = numpy.asarray(list(x))
+        if a.dtype.kind == "f":             # numpy rounds a list straddling 2**63 to float64 (parked candidate)
+            if "python-int-list-straddling-2^63" in AWAITING_DECISION:
+                run.count("awaiting:python-int-list-straddling-2^63")
+                return
+        elif a.dtype.kind in "iu" and awaiting_class(a, v) is not None:
+            run.count("code-layer:skipped-known-class")       # uint64 sample x Python int query: D35, judged in _dtype_cases
+            return
+    fv = None if case["v"] in ("inf", "-inf", "nan") else Fraction(case["v"])
+    if case["v"] == "inf":
+        kge, kle = 0, n
+    elif case["v"] == "-inf":
+        kge, kle = n, 0
+    elif case["v"] == "nan":
+        kge = kle = None
+    else:
+        kge, kle = sum(1 for t in fx if t >= fv), sum(1 for t in fx if t <= fv)
+    stale = case.get("stale")                   # another sample whose ecdf is handed over as cdf= (statistic only)
+    if "ecdf" in _MISSING:
+        if stale is not None:
+            return
+        if form.startswith("cdf-own"):
+            form = "positional"
+    got = None
+    try:
+        with numpy.errstate(all="ignore"):
+            if stale is not None:
+                cdf = stats.ecdf(numpy.array([float(Fraction(t)) for t in stale]))
+                got = (stats.greater_equal_ecdf(x, v, cdf=cdf), stats.less_equal_ecdf(x, v, cdf=cdf))
+            elif form == "positional":
+                got = (stats.greater_equal_ecdf(x, v), stats.less_equal_ecdf(x, v))
+            elif form == "keywords":
+                got = (stats.greater_equal_ecdf(x=x, val=v), stats.less_equal_ecdf(val=v, x=x))
+            elif form == "quantiles-kw":
+                got = stats.get_quantiles(obs_count=v, sim_counts=x)
+            elif form == "cdf-empty":
+                got = (stats.greater_equal_ecdf(x, v, cdf=()), stats.less_equal_ecdf(x, v, ()))
+            elif form.startswith("cdf-own"):
+                ex, ey = stats.ecdf(x)
+                cdf = (ex, ey) if form == "cdf-own-tuple" else ([ex, ey] if form == "cdf-own-list" else (list(ex), list(ey)))
+                got = (stats.greater_equal_ecdf(x, v, cdf=cdf), stats.less_equal_ecdf(x, v, cdf))
+            else:                                # binned_ecdf at [v] (+ a second point above everything)
+                top = int(max(fx)) + 1 if dt.kind == "O" else float(max(fx)) + 1.0      # a second point above everything
+                vals = [v, top] if (fv is None or fv < Fraction(top)) and case["v"] != "inf" else [v]
+                how = case.get("vals_as") if dt.kind != "O" else ("tuple" if case.get("vals_as") == "tuple" else "list")
+                vals = tuple(vals) if how == "tuple" else (numpy.array([float(t) for t in vals]) if how == "array" else vals)
+                b = stats.binned_ecdf(x, vals) if form == "binned" else stats.binned_ecdf(vals=vals, x=x)
+                if len(b[1]) != len(vals) or (len(vals) == 2 and not _feq(_scalar(b[1][1]), 1.0)):
+                    raise TypeError(f"binned_ecdf returned {b!r:.200}")
+                got = (stats.greater_equal_ecdf(x, v), b[1][0])
+        got = (_scalar(got[0]), _scalar(got[1]))
+    except IndexError:
+        got = "IndexError"
+    except Exception as e:
+        unpromised = (case["container"] in ("deque", "array.array", "range", "subclass") or dt.kind == "O"
+                      or form in ("keywords", "quantiles-kw", "binned-kw", "cdf-own-list", "cdf-own-pylists"))
+        if stale is None and kge is not None and unpromised and isinstance(e, (TypeError, ValueError, OverflowError)):
+            # an argument FORM the docstrings do not promise (exotic container, Python ints beyond 64 bits, parameter
+            # names, a cdf= that is not the documented tuple of arrays) was REJECTED with an error: recorded, no verdict.
+            # (A value returned for such a form is judged like any other.)
+            _outside(run, "argument-form-rejected", False)
+            return
+        if stale is None and kge is not None:
+            run.oracle_failure(case, f"{form} on a {case['container']}: exception {type(e).__name__}: {e}")
+            return
+        got = "exc:" + type(e).__name__
+    verdict = stale is None and kge is not None        # a stale cdf / a nan query are outside the property: statistic
+    if verdict and not _feq(got, (kge / n, kle / n)):
+        run.oracle_failure(case, f"{form} on a {case['container']} of {dt.name}: (ge, le)={got!r}, expected ({kge}/{n}, {kle}/{n})")
+        return
+    if drv is not None:
+        line = f"ecdf_code {flist(fx)} {_qtext(v)}" + (f" {flist(Fraction(t) for t in stale)}" if stale is not None else "")
+        pend.append((case, drv.ask(line), got, verdict))
+
+
+def _code_layer(run, rng, tier):
+    """argument forms of the public functions (containers, keywords, the cdf= argument in its documented forms, float64
+    infinities) against the statement-level model: arrays, reversed array, subscripts, numpy's binary search"""
+    from csep.utils import stats
+    drv, pend = Driver(), []
+    stat = run.extra.setdefault("code_layer", dict(
+        note="statement-level model (Model/EcdfCode.lean) against the library; verdict for finite / infinite queries, "
+             "statistic for nan queries and for a cdf= of another sample (outside the property)",
+        cases=0, outside_property_cases=0, outside_property_predicted=0, disagreements=[]))
+    for _ in range(1000 if tier == "quick" else 12000):
+        dt = numpy.dtype(rng.choice(["int64", "float64", "float64", "int32", "float32", "uint8", "int16"]))
+        kind = rng.choice(CONTAINERS)
+        n = rng.choice([1, 1, 2, 3, 4, 7, 20, 33])
+        if kind == "range":
+            dt = numpy.dtype("int64")
+            lo = rng.randrange(-5, 5)
+            vals = [Fraction(lo + i) for i in range(n)]
+        elif dt.kind in "iu":
+            pool = [rng.randrange(0 if dt.kind == "u" else -9, 30) for _ in range(rng.randint(1, 6))]
+            vals = [Fraction(rng.choice(pool)) for _ in range(n)]
+        else:
+            pool = [Fraction(rng.choice([0.5, 1.25, -2.0, 3.75, 0.0, 7.5, 0.125]) + rng.randrange(0, 4)) for _ in range(rng.randint(1, 6))]
+            vals = [rng.choice(pool) for _ in range(n)]
+        if kind == "array.array" and dt.name not in ("int64", "float64"):
+            dt = numpy.dtype("int64" if dt.kind in "iu" else "float64")
+        pyint = kind in ("list", "tuple", "deque") and rng.random() < 0.35
+        if pyint:
+            # Python ints of any size: int64 beyond 2**53, uint64 (all >= 2**63), object arrays (beyond 2**64, negative huge)
+            base = rng.choice([2 ** 53 - 2, 2 ** 62 + 7, 2 ** 63 + 3, 2 ** 64 + 5, 2 ** 70, -2 ** 70, -2 ** 63 - 9, 2 ** 63 - 2])
+            pool = [base + rng.randrange(0, 4) for _ in range(rng.randint(1, 5))]
+            if rng.random() < 0.3 and base >= 2 ** 64 or base <= -2 ** 63 - 9:
+                pool.append(rng.choice([-7, 0, 12]))         # object array with small and huge entries
+            vals = [Fraction(rng.choice(pool)) for _ in range(n)]
+            dt = numpy.dtype("O")
+        lo, hi = min(vals), max(vals)
+        r = rng.random()
+        if pyint:
+            q = rng.choice([rng.choice(vals), rng.choice(vals) + 1, rng.choice(vals) - 1, lo, hi, lo - 1, hi + 1, 0, 2 ** 80, -2 ** 80])
+            vtxt, vt = str(int(q)), "int"
+        elif r < 0.12:
+            vtxt, vt = rng.choice(["inf", "-inf"]), rng.choice(["float", "float64", "float32", "float64@0d"])
+        elif r < 0.15:
+            vtxt, vt = "nan", rng.choice(["float", "float64"])
+        else:
+            q = rng.choice([rng.choice(vals), rng.choice(vals), lo - 1, hi + 1, (lo + hi) / 2, rng.choice(vals) + Fraction(1, 4),
+                            lo, hi])
+            tq = [t for t in _typed_queries(q)]
+            if not tq:
+                continue
+            t = rng.choice(tq)
+            vtxt, vt = str(Fraction(_exact(t))), _vtype(t)
+        form = rng.choice(CALL_FORMS)
+        case = dict(tag="code-layer", container=kind, xdtype=dt.name, x=[str(t) for t in vals], v=vtxt, vtype=vt, form=form,
+                    vals_as=rng.choice(["list", "tuple", "array"]))
+        if vt.endswith("@0d") and form.startswith("binned"):
+            case["vals_as"] = "list"
+        if rng.random() < 0.04:
+            case["stale"] = [str(rng.choice(vals) + rng.choice([-1, 0, 2])) for _ in range(rng.choice([1, 2, 5]))]
+            case["form"] = "positional"
+        run.case(dict(case, x=case["x"][:12]), ("code", kind, dt.name, tuple(vals), vtxt, vt, case["form"])
+                 if len(set(vals)) < n or vtxt in case["x"] else None)
+        run.count("code-layer:" + case["form"])
+        run.count("container:" + kind)
+        _run_code_case(run, case, drv, pend)
+    # ecdf(x) itself: the two arrays
+    for _ in range(40 if tier == "quick" else 400):
+        n = rng.choice([1, 2, 5, 17])
+        vals = [Fraction(rng.randrange(-4, 9), rng.choice([1, 1, 2, 4])) for _ in range(n)]
+        kind = rng.choice(["list", "tuple", "array", "series", "deque"])
+        case = dict(tag="ecdf-arrays", container=kind, x=[str(t) for t in vals])
+        run.case(case, None)
+        _run_ecdf_arrays(run, case)
+    out = drv.run()
+    for case, i, got, verdict in pend:
+        parts = out[i].split(" ")
+        if len(parts) != 2:
+            model = out[i]
+        elif "IndexError" in parts:
+            model = "IndexError"
+        else:
+            try:
+                model = tuple(float(Fraction(t)) for t in parts)
+            except Exception:
+                model = out[i]
+        if verdict:
+            stat["cases"] += 1
+            if not (isinstance(model, tuple) and isinstance(got, tuple) and _feq(model, got)):
+                run.mismatch(dict(case, op="ecdf_code"), repr(got), out[i])
+        else:
+            stat["outside_property_cases"] += 1
+            if model == got:
+                stat["outside_property_predicted"] += 1
+            elif len(stat["disagreements"]) < 6:
+                stat["disagreements"].append(dict(case=case, library=repr(got), model=out[i]))
+
+
+def _run_ecdf_arrays(run, case):
+    from csep.utils import stats
+    if "ecdf" in _MISSING:
+        return
+    vals = [Fraction(t) for t in case["x"]]
+    x = _container(case["container"], vals, numpy.dtype("float64"))
+    n = len(vals)
+    try:
+        ex, ey = stats.ecdf(x)
+        ok = [Fraction(float(t)) for t in ex] == sorted(vals) and _feq([float(t) for t in ey], [(i + 1) / n for i in range(n)])
+    except Exception as e:
+        run.oracle_failure(case, f"ecdf raised {type(e).__name__}: {e}")
+        return
+    if not ok:
+        run.oracle_failure(case, "ecdf(x) is not (sorted x, (1..n)/n)")
+
+
 # ----------------------------------------------------------------------------- sup_dist / sup_dist_na
 def _sup_dist(run, rng, tier):
     """sup_dist_na(d1, d2) = sup over the pooled sample of |F1 - F2| with F_i the "at most" probability of sample i
     (Ecdf.sup_dist_na_spec); sup_dist(cdf1, cdf2) = max |cdf2 - cdf1|"""
     from csep.utils import stats
+    if "sup_dist_na" in _MISSING:
+        return
     drv, pend = Driver(), []
     bit = run.extra.setdefault("sup_dist_na", dict(cases=0, bitexact_with_soft64=0))
     for it in range(250 if tier == "quick" else 2500):
@@ -830,7 +1202,7 @@ def _sup_dist(run, rng, tier):
             continue
         pend.append((case, drv.ask(f"sup_dist_na {flist(f1)} {flist(f2)}"), got, want))
         # sup_dist on two aligned ecdf arrays (the values binned_ecdf returns)
-        if it % 3 == 0:
+        if it % 3 == 0 and "sup_dist" not in _MISSING:
             pts = sorted(set(f1 + f2))
             c1 = [sum(1 for t in f1 if t <= p) / n1 for p in pts]
             c2 = [sum(1 for t in f2 if t <= p) / n2 for p in pts]
@@ -842,14 +1214,14 @@ def _sup_dist(run, rng, tier):
                 run.oracle_failure(sc, f"sup_dist raised {type(e).__name__}: {e}")
                 continue
             w = max(abs(b - a) for a, b in zip(c1, c2))
-            if g != w:
+            if not _feq(g, w):
                 run.oracle_failure(sc, f"sup_dist={g!r}, max|cdf2-cdf1|={w!r}")
                 continue
             pend.append((sc, drv.ask(f"sup_dist {flist(Fraction(t) for t in c1)} {flist(Fraction(t) for t in c2)}"), g, None))
     out = drv.run()
     for case, i, got, want in pend:
         if want is None:
-            if Fraction(out[i]) != Fraction(got):
+            if not _feq(float(Fraction(out[i])), got):
                 run.mismatch(case, frac(Fraction(got)), out[i])
             continue
         ex, fl = out[i].split(" ")
@@ -862,6 +1234,8 @@ def _sup_dist(run, rng, tier):
 # ----------------------------------------------------------------------------- min_or_none / max_or_none
 def _min_max(run, rng, tier):
     from csep.utils import stats
+    if "min_or_none" in _MISSING or "max_or_none" in _MISSING:
+        return
     drv, pend = Driver(), []
     for _ in range(150 if tier == "quick" else 1500):
         dt = numpy.dtype(rng.choice(UINTS + SINTS + FLOATS))
@@ -878,21 +1252,33 @@ def _min_max(run, rng, tier):
         case = dict(x=[str(t) for t in fx], xdtype=dt.name, as_list=not isinstance(arg, numpy.ndarray), tag="min_max")
         run.case(case, ("minmax", dt.name, tuple(fx)) if len(set(fx)) < len(fx) else None)
         run.count("min_max" if n else "min_max:empty")
+        if n == 0:
+            # empty input: outside C09 (the helpers' own contract: None); recorded, not a verdict
+            got0, exc = _quiet(lambda: (stats.min_or_none(arg), stats.max_or_none(arg)))
+            _outside(run, "empty-min-max", exc is None and got0[0] is None and got0[1] is None)
+            continue
         try:
             lo, hi = stats.min_or_none(arg), stats.max_or_none(arg)
         except Exception as e:
             run.oracle_failure(case, f"exception {type(e).__name__}: {e}")
             continue
-        if n == 0:
-            if lo is not None or hi is not None:
-                run.oracle_failure(case, f"empty input must give None, got {lo!r} {hi!r}")
-            continue
-        if lo is None or hi is None or _exact(lo) != min(fx) or _exact(hi) != max(fx):
+        try:
+            ok = lo is not None and hi is not None and _exact(lo) == min(fx) and _exact(hi) == max(fx)
+        except Exception:
+            ok = False
+        if not ok:
             run.oracle_failure(case, f"min/max = {lo!r}/{hi!r}, expected {min(fx)}/{max(fx)}")
             continue
         # the extremes have probability one (Ecdf.extremes_have_probability_one)
-        if stats.greater_equal_ecdf(arr, lo) != 1.0 or stats.less_equal_ecdf(arr, hi) != 1.0:
-            run.oracle_failure(case, "P(X >= min) or P(X <= max) is not 1")
+        ext = _guard(run, case, "P(X >= min), P(X <= max)", lambda: (stats.greater_equal_ecdf(arr, lo), stats.less_equal_ecdf(arr, hi)))
+        if ext is _FAILED:
+            continue
+        try:
+            ok = _feq(_scalar(ext[0]), 1.0) and _feq(_scalar(ext[1]), 1.0)
+        except Exception:
+            ok = False
+        if not ok:
+            run.oracle_failure(case, f"P(X >= min), P(X <= max) = {ext!r}, expected 1, 1")
         pend.append((case, drv.ask(f"min_max {flist(Fraction(t) for t in fx)}"), Fraction(_exact(lo)), Fraction(_exact(hi))))
     out = drv.run()
     for case, i, lo, hi in pend:
@@ -903,11 +1289,26 @@ def _min_max(run, rng, tier):
 
 def replay(run, payload):
     case = payload["case"]
+    _detect_helpers(run)
     if case.get("tag") in ("sup_dist_na", "sup_dist", "min_max", "infinite-query"):
         return _replay_extra(run, case)
     if case.get("tag") == "session":
         run.case(case, None)
         return _run_session(run, case)
+    if case.get("tag") == "code-layer":
+        run.case(case, None)
+        drv, pend = Driver(), []
+        _run_code_case(run, case, drv, pend)
+        out = drv.run()
+        for c, i, got, verdict in pend:
+            parts = out[i].split(" ")
+            model = "IndexError" if "IndexError" in parts else tuple(float(Fraction(t)) for t in parts)
+            if verdict and not (isinstance(model, tuple) and isinstance(got, tuple) and _feq(model, got)):
+                run.mismatch(dict(c, op="ecdf_code"), repr(got), out[i])
+        return
+    if case.get("tag") == "ecdf-arrays":
+        run.case(case, None)
+        return _run_ecdf_arrays(run, case)
     if case.get("tag") == "large-sample":
         run.case(case, None)
         return _run_large(run, case)
@@ -918,10 +1319,16 @@ def replay(run, payload):
         x = numpy.array([int(t) if dx.kind in "iu" else float(t) for t in fx], dtype=dx)
         vals = numpy.array([int(t) if dq.kind in "iu" else float(t) for t in fvals], dtype=dq)
         run.case(case, None)
-        got = stats.binned_ecdf(x, vals)
+        got = _guard(run, case, "binned_ecdf", lambda: stats.binned_ecdf(x, vals))
+        if got is _FAILED:
+            return
         want = [sum(1 for t in fx if t <= v) / len(fx) for v in fvals]
-        if got is None or list(got[1]) != want:
-            run.oracle_failure(case, f"binned_ecdf={None if got is None else list(got[1])!r} expected {want!r}")
+        try:
+            ok = got is not None and _feq([_scalar(t) for t in got[1]], want)
+        except Exception:
+            ok = False
+        if not ok:
+            run.oracle_failure(case, f"binned_ecdf={got!r:.300} expected {want!r}")
         return
     if "xdtype" in case and isinstance(case.get("x"), list) and case["x"]:
         fx = [Fraction(t) for t in case["x"]]
@@ -940,19 +1347,25 @@ def replay(run, payload):
         x = [float(t) for t in case["x"]]; vals = [float(t) for t in case["vals"]]
         n = len(x)
         if n == 0:
-            if stats.binned_ecdf([], vals) is not None:
-                run.oracle_failure(case, "binned_ecdf of an empty sample must be None")
+            got, exc = _quiet(lambda: stats.binned_ecdf([], vals))
+            _outside(run, "empty-sample-binned", exc is None and got is None)
             return
-        got = stats.binned_ecdf(numpy.array(x), numpy.array(vals))
-        want = [sum(1 for t in x if Fraction(t) <= Fraction(v)) / n for v in vals]
         run.case(case, None)
-        if list(got[1]) != want:
-            run.oracle_failure(case, f"binned_ecdf={list(got[1])!r} expected {want!r}")
+        got = _guard(run, case, "binned_ecdf", lambda: stats.binned_ecdf(numpy.array(x), numpy.array(vals)))
+        if got is _FAILED:
+            return
+        want = [sum(1 for t in x if Fraction(t) <= Fraction(v)) / n for v in vals]
+        try:
+            ok = got is not None and _feq([_scalar(t) for t in got[1]], want)
+        except Exception:
+            ok = False
+        if not ok:
+            run.oracle_failure(case, f"binned_ecdf={got!r:.300} expected {want!r}")
         return
     if not case.get("x"):
         from csep.utils import stats
-        if stats.greater_equal_ecdf([], 1.0) is not None:
-            run.oracle_failure(case, "empty sample must give None")
+        got, exc = _quiet(lambda: (stats.greater_equal_ecdf([], 1.0), stats.less_equal_ecdf(numpy.array([]), 1.0)))
+        _outside(run, "empty-sample", exc is None and got[0] is None and got[1] is None)
         return
     x = [float(t) if "." in t or "e" in t or "inf" in t else int(t) for t in case["x"]]
     v = float(case["v"]) if "." in case["v"] else int(case["v"])
@@ -965,30 +1378,44 @@ def _replay_extra(run, case):
     from csep.utils import stats
     run.case(case, None)
     tag = case["tag"]
+    if (tag == "sup_dist_na" and "sup_dist_na" in _MISSING) or (tag == "sup_dist" and "sup_dist" in _MISSING) or \
+            (tag == "min_max" and ("min_or_none" in _MISSING or "max_or_none" in _MISSING)):
+        return
     if tag == "sup_dist_na":
         f1, f2 = [Fraction(t) for t in case["d1"]], [Fraction(t) for t in case["d2"]]
         conv = (lambda t: int(t)) if case.get("kind") == "int" else float
-        got = float(stats.sup_dist_na([conv(t) for t in f1], numpy.array([conv(t) for t in f2])))
+        got = _guard(run, case, "sup_dist_na", lambda: float(stats.sup_dist_na([conv(t) for t in f1], numpy.array([conv(t) for t in f2]))))
+        if got is _FAILED:
+            return
         want = max(abs(Fraction(sum(1 for t in f1 if t <= p), len(f1)) - Fraction(sum(1 for t in f2 if t <= p), len(f2)))
                    for p in f1 + f2)
         if abs(Fraction(got) - want) > Fraction(1, 10 ** 15):
             run.oracle_failure(case, f"sup_dist_na={got!r}, sup over the pooled sample of |F1-F2| = {float(want)!r}")
     elif tag == "sup_dist":
         c1, c2 = [float(t) for t in case["cdf1"]], [float(t) for t in case["cdf2"]]
-        g = float(stats.sup_dist(numpy.array(c1), numpy.array(c2)))
+        g = _guard(run, case, "sup_dist", lambda: float(stats.sup_dist(numpy.array(c1), numpy.array(c2))))
+        if g is _FAILED:
+            return
         w = max(abs(b - a) for a, b in zip(c1, c2))
-        if g != w:
+        if not _feq(g, w):
             run.oracle_failure(case, f"sup_dist={g!r}, max|cdf2-cdf1|={w!r}")
     elif tag == "min_max":
         dt = numpy.dtype(case["xdtype"])
         fx = [Fraction(t) for t in case["x"]]
         arr = numpy.array([int(t) if dt.kind in "iu" else float(t) for t in fx], dtype=dt)
         arg = arr.tolist() if case.get("as_list") else arr
-        lo, hi = stats.min_or_none(arg), stats.max_or_none(arg)
+        got = _guard(run, case, "min_or_none / max_or_none", lambda: (stats.min_or_none(arg), stats.max_or_none(arg)))
+        if got is _FAILED:
+            return
+        lo, hi = got
         if not fx:
-            if lo is not None or hi is not None:
-                run.oracle_failure(case, f"empty input must give None, got {lo!r} {hi!r}")
-        elif lo is None or hi is None or _exact(lo) != min(fx) or _exact(hi) != max(fx):
+            _outside(run, "empty-min-max", lo is None and hi is None)
+            return
+        try:
+            ok = lo is not None and hi is not None and _exact(lo) == min(fx) and _exact(hi) == max(fx)
+        except Exception:
+            ok = False
+        if not ok:
             run.oracle_failure(case, f"min/max = {lo!r}/{hi!r}, expected {min(fx)}/{max(fx)}")
     else:
         dt = numpy.dtype(case["xdtype"])
@@ -999,7 +1426,12 @@ def _replay_extra(run, case):
         if case["vtype"].endswith("@0d"):
             v = numpy.asarray(v)
         want = (0.0, 1.0) if sign > 0 else (1.0, 0.0)
-        with numpy.errstate(all="ignore"):
-            got = (stats.greater_equal_ecdf(arr, v), stats.less_equal_ecdf(arr, v))
-        if tuple(map(float, got)) != want:
+        got = _guard(run, case, "infinite query", lambda: (stats.greater_equal_ecdf(arr, v), stats.less_equal_ecdf(arr, v)))
+        if got is _FAILED:
+            return
+        try:
+            ok = _feq(tuple(map(_scalar, got)), want)
+        except Exception:
+            ok = False
+        if not ok:
             run.oracle_failure(case, f"(ge, le)={got!r}, expected {want}")
